@@ -103,6 +103,9 @@ def check_ranking_views(r, what):
     for i in range(len(r.buckets)):
         if r[i] != r.buckets[i]:
             raise Violation("%s: r[%d] differs from buckets[%d]" % (what, i, i))
+    want_int = all(lib.int_like(v) for (_, v) in expected)
+    if bool(lib.must(r.can_be_of_int)) != want_int:
+        raise Violation("%s: can_be_of_int() = %r for the names %s" % (what, r.can_be_of_int(), [v for _, v in expected]))
 
 
 def check_dataset_views(d, what):
